@@ -16,6 +16,7 @@ paths) and the side condition `P`.  `P = fun _ _ => True` is "all histories, all
   * `specState_ok_iff`: the check the driver runs on the implementation's state IS `Reconciled`.
 -/
 import MtxVerif.Lemmas.C15InvB
+import MtxVerif.Gen.C15
 
 namespace MtxVerif.C15
 
@@ -116,6 +117,20 @@ theorem reconciled_partial {orc : Oracle} {pm : PM}
     Reconciled orc pm.confs pm.paths :=
   reconciled_of_inv (reach_invA h) (reach_invB (Or.inr fun _ _ hp => hp.1) h)
     (reach_invG (Or.inr fun _ _ hp => hp.2) h) hq
+
+/-- one theorem for every variant: a side condition is needed only for the defect that is not repaired -/
+theorem reconciled_variant {V : Variant} {orc : Oracle} {P : PM → Ev → Prop}
+    (hO : V.fixOrder = true ∨ ∀ pm ev, P pm ev → Fifo ev)
+    (hG : V.fixGroups = true ∨ ∀ pm ev, P pm ev → NoStale orc pm ev)
+    {pm : PM} (h : Reach V orc P pm) (hq : Quiescent pm) : Reconciled orc pm.confs pm.paths :=
+  reconciled_of_inv (reach_invA h) (reach_invB hO h) (reach_invG hG h) hq
+
+/-- with only the capture-group repair (notes/C15-fix-stale-groups.diff): in-order delivery is the only
+side condition left -/
+theorem reconciled_groupsFixed {orc : Oracle} {pm : PM}
+    (h : Reach ⟨true, false⟩ orc (fun _ ev => Fifo ev) pm) (hq : Quiescent pm) :
+    Reconciled orc pm.confs pm.paths :=
+  reconciled_variant (Or.inr fun _ _ hp => hp) (Or.inl rfl) h hq
 
 /-- the full statement holds for the repaired variant: every history, every delivery order -/
 theorem reconciled_fixed {orc : Oracle} {pm : PM} (h : Reach fixed orc (fun _ _ => True) pm)
@@ -336,6 +351,24 @@ theorem other_change_recreates {V : Variant} {orc : Oracle} {pm : PM} (a : InvA 
   · have := a.incLt p hp
     simp only [mkPath] at hinc
     omega
+
+/-! ### facts regenerated from the source (tools/xlate/c15) -/
+
+/-- `pathConfCanBeUpdated` has the shape `clone := old.Clone(); clone.X = new.X …; return new.Equal(clone)`
+(checked by the extractor) and the overwritten fields are exactly: name, regexp, forwarding, recording, and
+these camera controls — the property's hot-reloadable fields.  Everything else is `cold` in the model. -/
+theorem hot_fields_fact : Gen.C15.hotAssigned =
+    ["Name", "Regexp", "Forward",
+     "Record", "RecordPath", "RecordFormat", "RecordPartDuration", "RecordMaxPartSize", "RecordSegmentDuration",
+     "RecordDeleteAfter",
+     "RPICameraBrightness", "RPICameraContrast", "RPICameraSaturation", "RPICameraSharpness", "RPICameraExposure",
+     "RPICameraFlickerPeriod", "RPICameraAWB", "RPICameraAWBGains", "RPICameraDenoise", "RPICameraShutter",
+     "RPICameraMetering", "RPICameraGain", "RPICameraEV", "RPICameraFPS", "RPICameraTextOverlayEnable",
+     "RPICameraTextOverlay", "RPICameraIDRPeriod", "RPICameraBitrate"] := rfl
+
+/-- `doReloadConf` hands a configuration to a path with `go pa.reloadConf(c)` (two call sites): hence the
+mailbox with arbitrary delivery order in the model -/
+theorem reload_is_go_fact : Gen.C15.reloadIsGo = true ∧ Gen.C15.reloadConfCalls = 2 := ⟨rfl, rfl⟩
 
 /-! ### non-vacuity -/
 
